@@ -196,53 +196,53 @@ type T23 struct {
 
 var structMakers = []func(a int) any{
 	func(a int) any {
-		return &T00{A00: a + 0, Name: "n0", List: []int{a, 0}, F: 0.5, embedded: embedded{E: a}}
+		return &T00{A00: a + 0, Name: "n0" + esc(a)[:9], List: []int{a, 0}, F: 0.5, embedded: embedded{E: a}}
 	},
-	func(a int) any { return &T01{A01: a + 1, Name: "n1", List: []int{a, 1}, F: 0.5} },
+	func(a int) any { return &T01{A01: a + 1, Name: "n1" + esc(a)[:9], List: []int{a, 1}, F: 0.5} },
 	func(a int) any {
-		return &T02{A02: a + 2, Name: "n2", List: []int{a, 2}, F: 0.5, M: map[string]int{"m": a}}
-	},
-	func(a int) any {
-		return &T03{A03: a + 3, Name: "n3", List: []int{a, 3}, F: 0.5, embedded: embedded{E: a}}
-	},
-	func(a int) any { return &T04{A04: a + 4, Name: "n4", List: []int{a, 4}, F: 0.5} },
-	func(a int) any { return &T05{A05: a + 5, Name: "n5", List: []int{a, 5}, F: 0.5} },
-	func(a int) any {
-		return &T06{A06: a + 6, Name: "n6", List: []int{a, 6}, F: 0.5, embedded: embedded{E: a}}
+		return &T02{A02: a + 2, Name: "n2" + esc(a)[:9], List: []int{a, 2}, F: 0.5, M: map[string]int{"m": a}}
 	},
 	func(a int) any {
-		return &T07{A07: a + 7, Name: "n7", List: []int{a, 7}, F: 0.5, M: map[string]int{"m": a}}
+		return &T03{A03: a + 3, Name: "n3" + esc(a)[:9], List: []int{a, 3}, F: 0.5, embedded: embedded{E: a}}
 	},
-	func(a int) any { return &T08{A08: a + 8, Name: "n8", List: []int{a, 8}, F: 0.5} },
+	func(a int) any { return &T04{A04: a + 4, Name: "n4" + esc(a)[:9], List: []int{a, 4}, F: 0.5} },
+	func(a int) any { return &T05{A05: a + 5, Name: "n5" + esc(a)[:9], List: []int{a, 5}, F: 0.5} },
 	func(a int) any {
-		return &T09{A09: a + 9, Name: "n9", List: []int{a, 9}, F: 0.5, embedded: embedded{E: a}}
-	},
-	func(a int) any { return &T10{A10: a + 10, Name: "n10", List: []int{a, 10}, F: 0.5} },
-	func(a int) any { return &T11{A11: a + 11, Name: "n11", List: []int{a, 11}, F: 0.5} },
-	func(a int) any {
-		return &T12{A12: a + 12, Name: "n12", List: []int{a, 12}, F: 0.5, embedded: embedded{E: a}, M: map[string]int{"m": a}}
-	},
-	func(a int) any { return &T13{A13: a + 13, Name: "n13", List: []int{a, 13}, F: 0.5} },
-	func(a int) any { return &T14{A14: a + 14, Name: "n14", List: []int{a, 14}, F: 0.5} },
-	func(a int) any {
-		return &T15{A15: a + 15, Name: "n15", List: []int{a, 15}, F: 0.5, embedded: embedded{E: a}}
-	},
-	func(a int) any { return &T16{A16: a + 16, Name: "n16", List: []int{a, 16}, F: 0.5} },
-	func(a int) any {
-		return &T17{A17: a + 17, Name: "n17", List: []int{a, 17}, F: 0.5, M: map[string]int{"m": a}}
+		return &T06{A06: a + 6, Name: "n6" + esc(a)[:9], List: []int{a, 6}, F: 0.5, embedded: embedded{E: a}}
 	},
 	func(a int) any {
-		return &T18{A18: a + 18, Name: "n18", List: []int{a, 18}, F: 0.5, embedded: embedded{E: a}}
+		return &T07{A07: a + 7, Name: "n7" + esc(a)[:9], List: []int{a, 7}, F: 0.5, M: map[string]int{"m": a}}
 	},
-	func(a int) any { return &T19{A19: a + 19, Name: "n19", List: []int{a, 19}, F: 0.5} },
-	func(a int) any { return &T20{A20: a + 20, Name: "n20", List: []int{a, 20}, F: 0.5} },
+	func(a int) any { return &T08{A08: a + 8, Name: "n8" + esc(a)[:9], List: []int{a, 8}, F: 0.5} },
 	func(a int) any {
-		return &T21{A21: a + 21, Name: "n21", List: []int{a, 21}, F: 0.5, embedded: embedded{E: a}}
+		return &T09{A09: a + 9, Name: "n9" + esc(a)[:9], List: []int{a, 9}, F: 0.5, embedded: embedded{E: a}}
+	},
+	func(a int) any { return &T10{A10: a + 10, Name: "n10" + esc(a)[:9], List: []int{a, 10}, F: 0.5} },
+	func(a int) any { return &T11{A11: a + 11, Name: "n11" + esc(a)[:9], List: []int{a, 11}, F: 0.5} },
+	func(a int) any {
+		return &T12{A12: a + 12, Name: "n12" + esc(a)[:9], List: []int{a, 12}, F: 0.5, embedded: embedded{E: a}, M: map[string]int{"m": a}}
+	},
+	func(a int) any { return &T13{A13: a + 13, Name: "n13" + esc(a)[:9], List: []int{a, 13}, F: 0.5} },
+	func(a int) any { return &T14{A14: a + 14, Name: "n14" + esc(a)[:9], List: []int{a, 14}, F: 0.5} },
+	func(a int) any {
+		return &T15{A15: a + 15, Name: "n15" + esc(a)[:9], List: []int{a, 15}, F: 0.5, embedded: embedded{E: a}}
+	},
+	func(a int) any { return &T16{A16: a + 16, Name: "n16" + esc(a)[:9], List: []int{a, 16}, F: 0.5} },
+	func(a int) any {
+		return &T17{A17: a + 17, Name: "n17" + esc(a)[:9], List: []int{a, 17}, F: 0.5, M: map[string]int{"m": a}}
 	},
 	func(a int) any {
-		return &T22{A22: a + 22, Name: "n22", List: []int{a, 22}, F: 0.5, M: map[string]int{"m": a}}
+		return &T18{A18: a + 18, Name: "n18" + esc(a)[:9], List: []int{a, 18}, F: 0.5, embedded: embedded{E: a}}
 	},
-	func(a int) any { return &T23{A23: a + 23, Name: "n23", List: []int{a, 23}, F: 0.5} },
+	func(a int) any { return &T19{A19: a + 19, Name: "n19" + esc(a)[:9], List: []int{a, 19}, F: 0.5} },
+	func(a int) any { return &T20{A20: a + 20, Name: "n20" + esc(a)[:9], List: []int{a, 20}, F: 0.5} },
+	func(a int) any {
+		return &T21{A21: a + 21, Name: "n21" + esc(a)[:9], List: []int{a, 21}, F: 0.5, embedded: embedded{E: a}}
+	},
+	func(a int) any {
+		return &T22{A22: a + 22, Name: "n22" + esc(a)[:9], List: []int{a, 22}, F: 0.5, M: map[string]int{"m": a}}
+	},
+	func(a int) any { return &T23{A23: a + 23, Name: "n23" + esc(a)[:9], List: []int{a, 23}, F: 0.5} },
 }
 
 // Types whose nested struct types are reachable only through containers of pointers ([]*T, map[string]*T,
